@@ -1,5 +1,10 @@
 //go:build verif && (!amd64 || purego)
 
-package x25519
+package x25519_test
 
-func c06Backend() string { return "generic" }
+// Without the assembly the generic Go code is the only back-end (build tags only,
+// no package internals are named).
+
+import "github.com/cloudflare/circl/internal/verifc06"
+
+func init() { verifc06.RegisterBackend("x25519", func() string { return "generic" }) }
